@@ -30,7 +30,8 @@ def stableAt (adj : List (List Nat)) (k : Nat) : Bool :=
   (List.range adj.length).all fun u => (List.range adj.length).all fun v =>
     sameClass adj (k+1) u v == sameClass adj k u v
 
-/-! ### memoised evaluation (what the driver runs); `classTab_eq` in Properties/C02 ties it to `sameClass` -/
+/-! ### memoised evaluation (what the driver runs); `classTab_eq`, `groupsAsT_eq`, `stableAtT_eq`, `groupsAsStable_iff` in Lemmas/WLSpecTab.lean
+(collected as `C02.spec_lines_sound`) tie them to `sameClass` / `Inseparable` -/
 
 def tget (t : List (List Bool)) (u v : Nat) : Bool := (t.getD u []).getD v false
 
